@@ -1,4 +1,5 @@
 """C12 - results are independent of number packaging and of homogeneous rescaling (DESIGN.md section 3, C12)."""
+import copy
 import numpy as np
 from vf.api import rcontract, bounded
 from geometry_tools import hyperbolic as h, projective as pr, utils, coxeter
@@ -254,7 +255,28 @@ def packaging(tier, rng, rep):
                 B = G.bilinear_form()
                 rp = G.geometric_representation()
                 cr = G.canonical_representation()
-                return np.concatenate([np.asarray(B, dtype=float).ravel()] + [np.asarray(rp[g], dtype=float).ravel() for g in "abc"] + [np.asarray(cr[g], dtype=float).ravel() for g in "abc"])
+                out = [np.asarray(B, dtype=float).ravel()] + [np.asarray(rp[g], dtype=float).ravel() for g in "abc"] + [np.asarray(cr[g], dtype=float).ravel() for g in "abc"]
+                # free Cartan parameters at the infinite labels (used AFTER the form was computed once: the group must still know its labels)
+                cm0 = np.array(G.coxeter_matrix, copy=True)
+                inf_idx = [(int(i), int(j)) for i, j in zip(*np.nonzero(np.asarray(G.coxeter_matrix) < 0)) if i < j]
+                if inf_idx:
+                    i, j = inf_idx[0]
+                    tpar = -3.0
+                    C = np.asarray(G.cartan_matrix({(i, j): tpar}), dtype=float)
+                    tv = G.tits_vinberg_rep({(i, j): tpar})
+                    gi, gj = G.ordered_gens[i], G.ordered_gens[j]
+                    tr = float(np.trace(np.asarray(tv[gi], dtype=float) @ np.asarray(tv[gj], dtype=float)))
+                    if C[i, j] != tpar or C[j, i] != tpar:
+                        rep.fail("free_cartan_parameter_is_used", f"TriangleGroup{tri} with {pname} labels: cartan_matrix({{({i},{j}): {tpar}}}) has entries {C[i, j]}, {C[j, i]} there", inp)
+                    elif abs(tr - (3 - 4 + tpar * tpar)) > 1e-9:
+                        rep.fail("free_cartan_parameter_is_used", f"TriangleGroup{tri} with {pname} labels: trace of the product of the two generators is {tr}, expected {3 - 4 + tpar * tpar}", inp)
+                    out += [C.ravel()] + [np.asarray(tv[g], dtype=float).ravel() for g in "abc"]
+                if not np.array_equal(cm0, np.asarray(G.coxeter_matrix)):
+                    rep.fail("labels_unchanged_by_queries", f"TriangleGroup{tri} with {pname} labels: the stored Coxeter matrix changed", inp)
+                B2 = np.asarray(G.bilinear_form(), dtype=float)
+                if not np.array_equal(B2, np.asarray(B, dtype=float)):
+                    rep.fail("labels_unchanged_by_queries", f"TriangleGroup{tri} with {pname} labels: second bilinear_form() differs from the first", inp)
+                return np.concatenate(out)
             r = rep.attempt("entry_point_runs", inp, cox)
             rep.case(key=("cox", tri, pname), nontrivial=pname != "python_int")
             if r is not None:
@@ -265,7 +287,21 @@ def packaging(tier, rng, rep):
         M2 = np.array([[1, tri[0], tri[2]], [tri[0], 1, tri[1]], [tri[2], tri[1], 1]])
         for pname, mat in {"matrix_int": M2, "matrix_float": M2.astype(float), "matrix_list": M2.tolist()}.items():
             inp = {"entry": "CoxeterGroup(matrix)", "labels": list(tri), "packaging": pname}
-            r = rep.attempt("entry_point_runs", inp, lambda: np.asarray(coxeter.CoxeterGroup(matrix=mat).bilinear_form(), dtype=float).ravel())
+            def mroute():
+                keep = copy.deepcopy(mat)
+                Gm = coxeter.CoxeterGroup(matrix=mat)
+                bf = np.asarray(Gm.bilinear_form(), dtype=float).ravel()
+                same = np.array_equal(np.asarray(keep), np.asarray(mat))
+                if not same:
+                    rep.fail("caller_matrix_unchanged", f"CoxeterGroup(matrix) {pname}: the caller's matrix was modified", inp)
+                inf_idx = [(int(i), int(j)) for i, j in zip(*np.nonzero(np.asarray(Gm.coxeter_matrix) < 0)) if i < j]
+                if inf_idx:
+                    i, j = inf_idx[0]
+                    C = np.asarray(Gm.cartan_matrix({(i, j): -3.0}), dtype=float)
+                    if C[i, j] != -3.0 or C[j, i] != -3.0:
+                        rep.fail("free_cartan_parameter_is_used", f"CoxeterGroup(matrix) {pname}, labels {tri}: cartan_matrix ignores the parameter ({C[i, j]}, {C[j, i]})", inp)
+                return bf
+            r = rep.attempt("entry_point_runs", inp, mroute)
             rep.case(key=("coxm", tri, pname))
             if r is not None and res:
                 ref = next(iter(res.values()))[:9]
